@@ -83,6 +83,24 @@ ADDED = {
     "C19": " Round two: stoi_leading_space, stoi_accepts_only_numbers (fix D55).",
     "C20": " Round two: C20_merge WITHOUT the 'grouped' hypothesis (any interleaving of - and + lines: fix D42); -R -D, -l drift, interleaved hunks.",
 }
+ROUND3 = {
+    "C01": " Round three: regression D86 (first hunk line empty), guessFilepath_delete_missing.",
+    "C04": " Round three: regression D91 (rmdir EACCES), writeRejects through T8-hunted.",
+    "C06": " Round three: a removal applied a second time (fix D88), scenarios with -N and -t.",
+    "C09": " Round three: --backup + git stream + truncated last section as a concrete oracle (seeded change C09-m4).",
+    "C10": " Round three: outcome compares files (a directory which stays behind after an injected rmdir failure is harmless since fix D91).",
+    "C11": " Round three: prereq_word (fix D90); finding D96.",
+    "C12": " Round three: the escapes \\a \\b \\f \\r \\v (fix D89); finding D87.",
+    "C13": " Round three: unified_final_cr_is_crlf (fix D85).",
+    "C14": " Round three: getLine_cases / getLine_last_bare_cr (a CRLF patch cut off before its last newline: fix D85).",
+    "C15": " Round three: dry run vs real run with an rmdir that fails (fix D91), owner-unwritable files (fix D94).",
+    "C16": " Round three: reject file / empty backup names that are symbolic links (fix D95), -R of a link creation (fix D92).",
+    "C17": " Round three: chmod_directly (the chmod now comes after the backup and directly before the creat: fix D93), C17_run_backup_keeps_mode, owner write bit "
+           "only (fix D94), every kind of symbolic-link target against changing / creating / link-removing patches (fix D92, seeded change C17-m5).",
+    "C18": " Round three: trace shape mkdirs ++ backup ++ [chmod]? ++ write (fix D93); rename onto a directory fails in the model as it does on disk.",
+}
+for k, v in ROUND3.items():
+    ADDED[k] = ADDED.get(k, "") + v
 TODO = {}
 props = [json.loads(l) for l in open(os.path.join(HERE, "properties.jsonl"))]
 fixes = subprocess.run(["git", "-C", "/repo", "log", "--format=%h %s", "--grep=^fix:"], capture_output=True, text=True).stdout.strip().splitlines()
